@@ -383,6 +383,7 @@ impl Engine for C08 {
         if tier == Tier::Thorough {
             v.push(Phase::new("programs with 2 declarations (full body menu)", json!({"k":2,"full":true})));
             v.push(Phase::new("programs with 3 declarations (small menu: 4 heads x 10 bodies)", json!({"k":3,"full":false,"small":true})));
+            v.push(Phase::new("two modules: function bodies <= 2 x arguments <= 2 x 12 use sites (the generated space of C01)", json!({"two":2})));
         }
         v
     }
@@ -398,6 +399,26 @@ impl Engine for C08 {
                         sink.visit(idx, || c02::program_json(p, &print(p).texts), |_| judge(p));
                     }
                     idx += 1;
+                }
+            }
+            return;
+        }
+        if phase.param["two"].as_u64().is_some() {
+            let all = crate::space::agnostic_exprs(2);
+            let terms: Vec<&E> = all[1].iter().chain(all[2].iter()).collect();
+            let mut idx = 0u64;
+            for b in terms.iter() {
+                for a in terms.iter() {
+                    for site in 0..crate::space::N_SITES {
+                        if sink.mine(idx) {
+                            if sink.expired() {
+                                return;
+                            }
+                            let p = crate::space::two_module(b, a, site);
+                            sink.visit(idx, || c02::program_json(&p, &print(&p).texts), |_| judge(&p));
+                        }
+                        idx += 1;
+                    }
                 }
             }
             return;
